@@ -60,10 +60,11 @@ def build_pool():
     # tables
     TA = Table('TA', None, [(0, True, u8), (1, True, s8)])
     TB = Table('TB', 0x1122334455667788, [(0, True, u32), (5, False, s8), (127, True, Vec(u8)), (128, True, SA)])
-    TC = Table('TC', ('ns', 'pool.TC'), [(1 << 32, True, i64), (1 << 63, True, Opt(u8))])
+    TC = Table('TC', 0xfedcba9876543210, [(1 << 32, True, i64), (1 << 63, True, u16)])
+    TO = Table('TOptEntry', 3, [(0, True, Opt(u8))])
     TN = Table('TN', None, [(0, True, TA), (1, True, Vec(TA)), (2, True, u16)])
     TH = Table('TH', 7, [(0, True, hd), (1, True, u8), (2, True, Vec(hd))])
-    P += [TA, TB, TC, TN, TH, Vec(TA), Struct('STab', [u8, TA, u8]), Opt(TA)]
+    P += [TA, TB, TC, TO, TN, TH, Vec(TA), Struct('STab', [u8, TA, u8]), Opt(TA)]
     # handles in containers
     P += [Vec(hd), Opt(hd), Var(hd, u8), Struct('SH', [u8, hd, hf, s8]), Tup(hd, hd)]
     # de-duplicate by tid preserving order
